@@ -43,7 +43,7 @@ func digest(o sim.Outcome) string {
 type c08Case struct {
 	Case     gen.Case   `json:"case"`
 	Cfg      sim.Config `json:"cfg"`
-	Relation string     `json:"relation"` // repeat, after-others, concurrent, reuse-same, reuse-other, child
+	Relation string     `json:"relation"` // repeat, after-others, concurrent, reuse-same, reuse-other, reuse-other-state, child
 	Other    sim.Config `json:"other,omitempty"`
 }
 
@@ -103,7 +103,7 @@ func c08Judge(c c08Case) error {
 				return fmt.Errorf("%s: machine %d of %d running concurrently gives %s, a lone run %s", c.Cfg, k+1, n, d, r0)
 			}
 		}
-	case "reuse-same", "reuse-other":
+	case "reuse-same", "reuse-other", "reuse-other-state":
 		app, err := risc.Parse(text)
 		if err != nil {
 			return nil
@@ -112,8 +112,22 @@ func c08Judge(c c08Case) error {
 		if c.Relation == "reuse-other" {
 			first = c.Other
 		}
+		firstInit := init
+		if c.Relation == "reuse-other-state" {
+			// the first machine runs the same parsed program from another state
+			// (other register values, other memory bytes): it may take other paths,
+			// fault or exhaust its budget — whatever it leaves inside the parsed
+			// program must not reach the second machine
+			firstInit = ref.State{Mem: append([]int8(nil), init.Mem...)}
+			for i := range firstInit.Mem {
+				firstInit.Mem[i] ^= int8(i*37 + 11)
+			}
+			for i := 1; i < 32; i++ {
+				firstInit.Reg[i] = init.Reg[i]*3 + int32(i)
+			}
+		}
 		// the parsed program is used by a first machine, then by the judged one
-		_ = sim.RunApp(first, app, init, budget, nil)
+		_ = sim.RunApp(first, app, firstInit, budget, nil)
 		if d := digest(sim.RunApp(c.Cfg, app, init, budget, nil)); d != r0 {
 			return fmt.Errorf("%s: re-using the program parsed for a run on %s gives %s, a freshly parsed program %s", c.Cfg, first, d, r0)
 		}
@@ -197,7 +211,7 @@ func TestC08(t *testing.T) {
 	h := hx.Begin(t, "C08", "determinism")
 	cfgs := sim.AllConfigs()
 	rapid.Check(t, func(rt *rapid.T) {
-		p := drawProfile(rt, []gen.Profile{gen.PRESSURELOAD, gen.MEM, gen.SHADOWSLOW, gen.MEMSAFE, gen.REG}, []int{25, 30, 15, 15, 15})
+		p := drawProfile(rt, []gen.Profile{gen.SHADOWSLOW, gen.PRESSURELOAD, gen.MEM, gen.MEMSAFE, gen.REG}, []int{35, 20, 20, 10, 15})
 		c := gen.Program(rt, p)
 		r, ok := refRun(c)
 		if !ok {
@@ -207,7 +221,7 @@ func TestC08(t *testing.T) {
 		// each case is judged on a drawn subset of configurations (the relations
 		// cost a dozen runs each)
 		k := rapid.IntRange(0, len(cfgs)-1).Draw(rt, "cfg0")
-		rel := rapid.SampledFrom([]string{"repeat", "after-others", "concurrent", "reuse-same", "reuse-other", "repeat", "concurrent"}).Draw(rt, "relation")
+		rel := []string{"repeat", "after-others", "concurrent", "reuse-same", "reuse-other", "reuse-other-state", "concurrent", "reuse-other-state"}[int(gen.Mix(rapid.Uint64().Draw(rt, "relation"))%8)]
 		if rapid.IntRange(0, 19).Draw(rt, "child") == 0 {
 			rel = "child"
 		}
